@@ -705,16 +705,8 @@ def spec_violation(op, im, effs, sp, prop):
         if k in ("is_running", "eq") and "bool" in sp:
             if im != {"kind": "bool", "v": sp["bool"]}:
                 return "%s must be %s for these incarnations" % (k, sp["bool"])
-        if k == "status" and "listed" in sp:
-            # (C02_status_terminated_sound / C02_status_listed; the converse — a stale handle nobody asked
-            # is_running() on shows the new owner's state — is false of the code: C02_status_stale_counterexample)
-            w = im.get("v") if im.get("kind") == "status" else None
-            if w is None:
-                return "str(p) raised or shows no status word"
-            if sp["listed"]:
-                want = "zombie" if sp.get("own_zombie") else "alive"
-                if w != want:
-                    return "str(p) shows %r while the object's own process is in the table (%s)" % (w, want)
+        # (no spec-level judgement on `status` — str(p)/repr(p) are outside C02's statement: the op is compared
+        # against the model only, which transcribes __str__ as it is)
         if k == "process_iter" and "listed_pids" in sp and im.get("kind") == "procs":
             ys = [x[0] for x in im["v"]]
             if any(y not in sp["listed_pids"] for y in ys):
@@ -749,17 +741,6 @@ def spec_violation(op, im, effs, sp, prop):
                 if not (im.get("kind") == "exc" and im.get("exc") == "NoSuchProcess" and im.get("pid") == sp["pid"]):
                     return "recycled/ended process: NoSuchProcess(%d) expected" % sp["pid"]
     return None
-
-
-FINDING_STR = "C02-str-stale-handle"
-
-
-def in_str_region(row):
-    """region of the known finding C02-str-stale-handle: str(p) of an object whose incarnation is gone shows
-    something else than 'terminated…' (the state of whoever holds the PID now)"""
-    o, im, _ie, _mo, _me, sp = row[:6]
-    return (o["op"] == "status" and sp.get("listed") is False and im.get("kind") == "status"
-            and not im["v"].startswith("terminated"))
 
 
 def run_histories(ctx, impl, hists, driver_file=None):
@@ -1517,10 +1498,6 @@ def correspond_for(ctx, res, prop, driver_file, n_quick, n_thorough):
                     sample = {"family": fam, "btime": h["btime"], "ops": h["ops"],
                               "impl": [[x[1], x[2]] for x in r["rows"]]}
                 res.case((h["btime"], h["ops"]), nontrivial=bool(feats & NONTRIVIAL), sample=sample)
-                if prop == "C02":
-                    nreg = sum(1 for x in r["rows"] if in_str_region(x))
-                    if nreg:
-                        res.known_seen[FINDING_STR] = res.known_seen.get(FINDING_STR, 0) + nreg
                 drift = []
                 pr = first_problem(r, prop if h.get("hyp", True) else "none", drift)
                 if drift:
